@@ -105,6 +105,51 @@ func formatCell(c *table.Cell) (string, error) {
 	return strings.TrimSpace(c.String()), nil
 }
 
+// compareNumbers compares two literals numerically if both are int64 or both
+// are float64. It returns a negative number, zero or a positive number if l is
+// less than, equal to or greater than r, and false if they are not numbers of
+// the same type. The comparable strings do not order negative numbers.
+func compareNumbers(l, r *literal.Literal) (int, bool) {
+	switch {
+	case l.Type() == literal.Int64 && r.Type() == literal.Int64:
+		vl, _ := l.Int64()
+		vr, _ := r.Int64()
+		switch {
+		case vl < vr:
+			return -1, true
+		case vl > vr:
+			return 1, true
+		}
+		return 0, true
+	case l.Type() == literal.Float64 && r.Type() == literal.Float64:
+		vl, _ := l.Float64()
+		vr, _ := r.Float64()
+		switch {
+		case vl < vr:
+			return -1, true
+		case vl > vr:
+			return 1, true
+		}
+		return 0, true
+	}
+	return 0, false
+}
+
+// evaluateComparison returns the result of the operation given the outcome c
+// of comparing its operands.
+func evaluateComparison(op OP, c int) (bool, error) {
+	switch op {
+	case EQ:
+		return c == 0, nil
+	case LT:
+		return c < 0, nil
+	case GT:
+		return c > 0, nil
+	default:
+		return false, fmt.Errorf("boolean evaluation requires a boolean operation; found %q instead", op)
+	}
+}
+
 // evaluationNode represents the internal representation of one expression.
 type evaluationNode struct {
 	operation OP
@@ -131,6 +176,23 @@ func (e *evaluationNode) Evaluate(r table.Row) (bool, error) {
 	leftBinding, rightBinding, err := eval()
 	if err != nil {
 		return false, err
+	}
+
+	if leftBinding.L != nil && rightBinding.L != nil {
+		if c, ok := compareNumbers(leftBinding.L, rightBinding.L); ok {
+			return evaluateComparison(e.operation, c)
+		}
+	}
+	if leftBinding.T != nil && rightBinding.T != nil {
+		// Time anchors are compared as instants, their text depends on the time zone.
+		c := 0
+		if leftBinding.T.Before(*rightBinding.T) {
+			c = -1
+		}
+		if leftBinding.T.After(*rightBinding.T) {
+			c = 1
+		}
+		return evaluateComparison(e.operation, c)
 	}
 
 	// comparable string expressions for left and right tokens.
@@ -183,6 +245,11 @@ func (e *comparisonForLiteral) Evaluate(r table.Row) (bool, error) {
 
 	if leftBinding.L != nil && leftBinding.L.Type() != rightLiteral.Type() {
 		return false, nil
+	}
+	if leftBinding.L != nil {
+		if c, ok := compareNumbers(leftBinding.L, rightLiteral); ok {
+			return evaluateComparison(e.operation, c)
+		}
 	}
 
 	// comparable string expressions for left and right tokens.
